@@ -603,3 +603,79 @@ Lemma port_byte_int8_orig :
   exists port cpu, 0 <= port < 8 /\ 0 <= cpu < 32
                    /\ ~ byte (Z.lor (wrap_int8 (Z.shiftl (Z.land port 7) 5)) (Z.land cpu 31)).
 Proof. exists 4, 2. unfold byte. vm_compute. intuition discriminate. Qed.
+
+(* ================================================================== re-encoding a decoded packet *)
+Ltac split_bytes :=
+  repeat match goal with
+         | H : bytes (_ :: _) |- _ => unfold bytes in H
+         | H : Forall byte (_ :: _) |- _ => apply Forall_cons_iff in H; destruct H
+         end.
+
+Lemma le32_of_bytes : forall a b c d, byte a -> byte b -> byte c -> byte d ->
+  le32 (a + 256 * (b + 256 * (c + 256 * (d + 256 * 0)))) = [a; b; c; d].
+Proof. intros a b c d Ha Hb Hc Hd. unfold byte in *. unfold le32. repeat f_equal; lia. Qed.
+
+Lemma word32_of_bytes : forall a b c d, byte a -> byte b -> byte c -> byte d ->
+  word32 (a + 256 * (b + 256 * (c + 256 * (d + 256 * 0)))).
+Proof. intros a b c d Ha Hb Hc Hd. unfold byte, word32 in *. lia. Qed.
+
+Lemma taken_bounds : forall n d, (taken n d <= 3)%nat /\ (4 * taken n d <= length d)%nat.
+Proof. intros n d. unfold taken. lia. Qed.
+
+Local Opaque Z.mul Z.add Z.div Z.modulo.
+
+(* a well-formed datagram with zero padding and one of the two documented flag bytes: whatever n_args it is
+   decoded with, the decoded packet encodes back to exactly the datagram *)
+Lemma scp_reencode : forall bs n q,
+  bytes bs -> nth 0 bs 0 = 0 -> nth 1 bs 0 = 0 -> (nth 2 bs 0 = 135 \/ nth 2 bs 0 = 7) ->
+  scp_of_bytes bs n = Ok q -> scp_bytes q = Ok bs.
+Proof.
+  intros bs n q Hb H0 H1 H2 Hd.
+  assert (Hl : (length bs < 14)%nat \/ (14 <= length bs)%nat) by lia. destruct Hl as [Hs | Hl].
+  { rewrite scp_of_bytes_short in Hd by exact Hs. discriminate Hd. }
+  do 14 (destruct bs as [|? bs]; [cbn [length] in Hl; lia|]).
+  rewrite scp_of_bytes_cons in Hd. injection Hd as Hd. subst q.
+  cbn [nth] in H0, H1, H2.
+  pose proof (taken_bounds n bs) as [K3 KL].
+  destruct (taken n bs) as [|[|[|[|k]]]]; [| | | |lia];
+    cbn [Nat.mul Nat.add length] in KL;
+    [ | do 4 (destruct bs as [|? bs]; [cbn [length] in KL; lia|])
+      | do 8 (destruct bs as [|? bs]; [cbn [length] in KL; lia|])
+      | do 12 (destruct bs as [|? bs]; [cbn [length] in KL; lia|]) ];
+    split_bytes;
+    cbn [argi Nat.ltb Nat.leb Nat.mul Nat.add skipn firstn le_value];
+    (rewrite scp_layout;
+     [ unfold scp_wire, sdp_wire_header, le16, opt_le32;
+       cbn [sdp_part cmd_rc seq arg1 arg2 arg3 app
+            reply_expected tag dest_port dest_cpu src_port src_cpu dest_x dest_y src_x src_y data];
+       rewrite ?le32_of_bytes by assumption;
+       cbn [app];
+       assert (F : flag_byte (z1 =? 135) = z1) by (destruct H2 as [E | E]; rewrite E; reflexivity);
+       rewrite F; unfold byte in *; repeat f_equal; lia
+     | unfold scp_in_width, sdp_in_width, opt_word32;
+       cbn [sdp_part cmd_rc seq arg1 arg2 arg3
+            reply_expected tag dest_port dest_cpu src_port src_cpu dest_x dest_y src_x src_y data];
+       repeat split; try (apply word32_of_bytes; assumption); try exact I; unfold byte in *; lia ]).
+Qed.
+
+Lemma sdp_reencode : forall bs p,
+  bytes bs -> nth 0 bs 0 = 0 -> nth 1 bs 0 = 0 -> (nth 2 bs 0 = 135 \/ nth 2 bs 0 = 7) ->
+  sdp_of_bytes bs = Ok p -> sdp_bytes p = Ok bs.
+Proof.
+  intros bs p Hb H0 H1 H2 Hd.
+  assert (Hl : (length bs < 10)%nat \/ (10 <= length bs)%nat) by lia. destruct Hl as [Hs | Hl].
+  { rewrite sdp_of_bytes_short in Hd by exact Hs. discriminate Hd. }
+  do 10 (destruct bs as [|? bs]; [cbn [length] in Hl; lia|]).
+  rewrite sdp_of_bytes_cons in Hd. injection Hd as Hd. subst p.
+  cbn [nth] in H0, H1, H2. split_bytes.
+  rewrite sdp_layout.
+  - unfold sdp_wire, sdp_wire_header.
+    cbn [app reply_expected tag dest_port dest_cpu src_port src_cpu dest_x dest_y src_x src_y data].
+    assert (F : flag_byte (z1 =? 135) = z1) by (destruct H2 as [E | E]; rewrite E; reflexivity).
+    rewrite F. unfold byte in *. repeat f_equal; lia.
+  - unfold sdp_in_width.
+    cbn [reply_expected tag dest_port dest_cpu src_port src_cpu dest_x dest_y src_x src_y data].
+    unfold byte in *. repeat split; lia.
+Qed.
+
+Local Transparent Z.mul Z.add Z.div Z.modulo.
